@@ -41,8 +41,13 @@ MANIFEST = {
             "(C06_required_nulled / C06_required_removed) nulling / removing ONE required key at any position yields the required-key error "
             "positioned at that key; (C06_append_only_list, C06_plus_key_not_consumed) a key ending in '+' is consumed as an append key ONLY when its base "
             "is a list-typed argument of the level (ActionTypeHint.apply_appends), any other one is a foreign key covered by C06_names_key_partial; "
-            "(C06_argv_leftover) a command-line option outside the parser's option table is the error; (C06_no_lenient) "
+            "(C06_meta_key_source, C06_dunder_is_foreign) only the three names in meta_keys are filtered out of the key list check_values iterates (is_meta_key is a "
+            "membership test, tied to the source): a key spelled __comment__ is a foreign key; the three names written by the user are accepted "
+            "(C06_meta_key_counterexample, open finding C06-meta-key-foreign); "
+            "(C06_argv_leftover) a command-line option outside the parser's option table is the error; (C06_no_lenient, incl. the frame index stack()[1] of the parse_known_args guard) "
             "the regenerated table of lenient_check brackets, the guards of validate/_parse_common/parse_known_args/parse_args are as audited. "
+            "parse_known_args is probed from an external caller and from user code called back by the package (custom type function, __init__ run by instantiate_classes, "
+            "function run by CLI(), link compute_fn): refused everywhere. "
             "The full statements are false on the faithful model for four narrow classes, each a counterexample theorem and an open finding "
             "(leafless foreign mapping, non-selected subcommand section, dict_kwargs, scalar at a group key). The model is tied to the code on "
             "every run by comparing its action table (flatten) with the real parser's, its validate/parseArgv verdicts and named keys with the "
@@ -62,6 +67,9 @@ F_UNSELECTED = "C06-unselected-section"
 F_DICTKW = "C06-dict-kwargs"
 F_SCALARGROUP = "C06-scalar-for-group"
 F_CPONLY = "C06-classpath-sibling-misnamed"
+F_METAKEY = "C06-meta-key-foreign"
+DUNDER = ["__comment__", "__pth__", "__zz9__"]                 # spelled like metadata, NOT in meta_keys: foreign keys like any other
+META = ["__path__", "__default_config__", "__orig__"]      # jsonargparse._namespace.meta_keys
 
 NAMES = ["alpha", "beta", "gamma", "delta", "eps", "zeta", "eta", "theta", "iota", "kappa", "lam", "mu", "nu", "xi", "omi", "rho",
          "sigma", "tau", "ups", "phi", "chi", "psi", "omega", "aleph", "beth", "gimel", "dalet", "vav"]
@@ -598,6 +606,16 @@ def mutations_of(rng, fields, cfg, modname, full):
                 for name, variant in typo_names(rng, sibling_names(fields, cfg, modname, path, extra), full):
                     muts.append({"kind": "foreign", "path": path, "key": name, "value": copy.deepcopy(rng.choice([1, "w", [1], None, 2.5])),
                                  "cls": extra, "variant": variant})
+            # keys spelled `__...__`: only the three names in meta_keys are filtered out of the key list check_values iterates (is_meta_key is a
+            # membership test); `__comment__`, a mistyped `__pth__` are foreign keys at every position
+            for name in (DUNDER if full else [rng.choice(DUNDER)]):
+                if full or rng.random() < 0.6:
+                    muts.append({"kind": "foreign", "path": path, "key": name, "value": copy.deepcopy(rng.choice([1, "w", [1], {"q": 1}, "tuned on 2024-03-01"])),
+                                 "cls": extra, "variant": "dunder"})
+            # the three meta keys themselves, written by the user with a plain value: invisible to validation (open finding C06-meta-key-foreign);
+            # (inside a list item set_defaults refuses them: left out)
+            if extra == "normal" and not any(isinstance(x, int) for x in path) and (full or rng.random() < 0.25):
+                muts.append({"kind": "foreign", "path": path, "key": rng.choice(META), "value": rng.choice([1, "w"]), "cls": extra, "variant": "meta"})
             # keys ending in "+" (append keys): `apply_appends` consumes `k+` ONLY for a list-typed argument `k`; every other key ending in "+"
             # - an unrelated name, a misspelt list key, "+" on an argument that is not a list - stays a foreign key
             muts.extend(plus_mutations(rng, fields, cfg, modname, path, extra, full))
@@ -1209,6 +1227,8 @@ def finding_of(mut):
             return F_DICTKW
         if mut.get("cls") == "classdict-cponly":
             return F_CPONLY
+        if mut.get("variant") == "meta":
+            return F_METAKEY
     if mut["kind"] == "scalar-group":
         return F_SCALARGROUP
     return None
@@ -1470,6 +1490,7 @@ def known_text(fid, mut):
         F_UNSELECTED: "keys inside the section of a non-selected subcommand are discarded without validation",
         F_DICTKW: "keys under dict_kwargs of a class specification are accepted for a class without **kwargs",
         F_SCALARGROUP: "a non-mapping value at a group key whose fields are all optional is accepted (DESIGN section 7 row 8)",
+        F_METAKEY: "a key named __path__ / __default_config__ / __orig__ written by the user (plain value) is accepted at any level: is_meta_key filters it out of get_sorted_keys",
         F_CPONLY: "concrete base type: {class_path: C, <foreign key>} is rejected with \"Key 'class_path' is not expected\" - the foreign key is not named",
     }[fid]
 
@@ -1487,6 +1508,111 @@ def check_known_args(ctx: Ctx, case: Case):
     ctx.violation("parse_known_args accepted an external call (leftover arguments are returned, not rejected)", {"kind": "known_args", "spec": case.fields})
 
 
+def known_args_callbacks():
+    """parse_known_args called by user code that jsonargparse itself calls back: a custom `type=` function, a class __init__ run by
+    instantiate_classes, a function dispatched by CLI(), a link compute_fn.  In each the call sits DIRECTLY in the called-back function, whose caller is
+    a frame of the jsonargparse package - the refusal must look at the immediate caller.  Returns [(where, outcome)], outcome "refused" | other."""
+    from jsonargparse import CLI, ArgumentParser
+
+    out = []
+
+    def fresh():
+        p = ArgumentParser(exit_on_error=False)
+        p.add_argument("--n", type=int, default=1)
+        return p
+
+    def custom_type(v):
+        p = fresh()
+        try:
+            p.parse_known_args(["--n=2", "--zz9=1"], p.get_defaults())
+        except NotImplementedError:
+            out.append(("custom type function", "refused"))
+        except Exception as ex:  # noqa: BLE001
+            out.append(("custom type function", "raised %s" % type(ex).__name__))
+        else:
+            out.append(("custom type function", "parsed, leftovers returned"))
+        return int(v)
+
+    class Component:
+        def __init__(self, a: int = 1):
+            p = fresh()
+            try:
+                p.parse_known_args(["--n=2", "--zz9=1"], p.get_defaults())
+            except NotImplementedError:
+                out.append(("__init__ run by instantiate_classes", "refused"))
+            except Exception as ex:  # noqa: BLE001
+                out.append(("__init__ run by instantiate_classes", "raised %s" % type(ex).__name__))
+            else:
+                out.append(("__init__ run by instantiate_classes", "parsed, leftovers returned"))
+
+    def command(a: int = 1):
+        p = fresh()
+        try:
+            p.parse_known_args(["--n=2", "--zz9=1"], p.get_defaults())
+        except NotImplementedError:
+            out.append(("function run by CLI()", "refused"))
+        except Exception as ex:  # noqa: BLE001
+            out.append(("function run by CLI()", "raised %s" % type(ex).__name__))
+        else:
+            out.append(("function run by CLI()", "parsed, leftovers returned"))
+
+    def compute(a):
+        p = fresh()
+        try:
+            p.parse_known_args(["--n=2", "--zz9=1"], p.get_defaults())
+        except NotImplementedError:
+            out.append(("link compute_fn", "refused"))
+        except Exception as ex:  # noqa: BLE001
+            out.append(("link compute_fn", "raised %s" % type(ex).__name__))
+        else:
+            out.append(("link compute_fn", "parsed, leftovers returned"))
+        return a
+
+    steps = []
+
+    def s1():
+        p = ArgumentParser(exit_on_error=False)
+        p.add_argument("--x", type=custom_type, default=0)
+        p.parse_args(["--x=3"])
+
+    def s2():
+        p = ArgumentParser(exit_on_error=False)
+        p.add_class_arguments(Component, "k")
+        p.instantiate_classes(p.parse_args([]))
+
+    def s3():
+        CLI(command, args=[])
+
+    def s4():
+        p = ArgumentParser(exit_on_error=False)
+        p.add_argument("--a", type=int, default=1)
+        p.add_argument("--b", type=int, default=0)
+        p.link_arguments("a", "b", compute_fn=compute)
+        p.parse_args(["--a=2"])
+
+    for name, step in (("custom type function", s1), ("__init__ run by instantiate_classes", s2), ("function run by CLI()", s3), ("link compute_fn", s4)):
+        before = len(out)
+        try:
+            step()
+        except Exception as ex:  # noqa: BLE001
+            steps.append((name, "the call-back situation could not be set up: %s: %s" % (type(ex).__name__, str(ex)[:120])))
+        if len(out) == before and not (steps and steps[-1][0] == name):
+            steps.append((name, "the call-back was never run"))
+    return out, steps
+
+
+def check_known_args_callbacks(ctx: Ctx):
+    out, problems = known_args_callbacks()
+    for where, what in problems:
+        raise MachineryError("parse_known_args probe: %s: %s" % (where, what))
+    for where, outcome in out:
+        ctx.count()
+        ctx.hist("known_args_caller", where)
+        if outcome != "refused":
+            ctx.violation("parse_known_args called from user code (%s, itself called by jsonargparse) is not refused: %s - a lenient parse mode" % (where, outcome),
+                          {"kind": "known_args_callback", "where": where})
+
+
 def load_corpus(ctx):
     from ..lib import corpus as corpus_mod
 
@@ -1498,7 +1624,7 @@ def run(ctx: Ctx):
     ctx.rule = ("generated parsers (2-5 top-level fields, depth <= 3) over typed leaves {int,str,bool,float,Optional[int],List[int]}, groups in the four "
                 "declaration styles, class-typed arguments (abstract base, 1-2 subclasses, nested parameters), lists of leaves/dataclasses/classes and "
                 "subcommands; one valid configuration per parser; every single-fault mutation (foreign key - an unrelated name, truncations of the defined sibling keys (proper string prefixes) and extensions of them - at every mapping position incl. next to "
-                "class_path, inside init_args, list items, sections; keys ending in '+' at every position: unrelated name+, misspelt list key+, '+' on an argument that is not a list (all to be rejected naming the key, either spelling) and the legitimate append on a list argument (to be accepted); required key removed / nulled; group or section holding required keys removed; "
+                "class_path, inside init_args, list items, sections; keys spelled __comment__ / __pth__ / __zz9__ (not in meta_keys: rejected) and the three meta keys (known finding) at every position; keys ending in '+' at every position: unrelated name+, misspelt list key+, '+' on an argument that is not a list (all to be rejected naming the key, either spelling) and the legitimate append on a list argument (to be accepted); required key removed / nulled; group or section holding required keys removed; "
                 "required subcommand removed) through channels {parse_object, parse_string json/yaml, parse_path/--cfg file, argv, environment "
                 "variables, environment config}; non-trivial = a (parser, mutation, channel) triple that the code rejects naming the key; distinct by canonical JSON")
     ctx.assumptions = [
@@ -1507,7 +1633,7 @@ def run(ctx: Ctx):
         "argparse abbreviation matching is avoided: the foreign key name is not a prefix of any option",
         "values of typed leaves are of the declared type (typing itself is the subject of C02)",
     ]
-    ctx.lean_build(extractors=["lenient_brackets"])
+    ctx.lean_build(extractors=["lenient_brackets", "meta_key_filter"])
     tmpdir = tempfile.mkdtemp(prefix="c06run_")
     atexit.register(shutil.rmtree, tmpdir, True)
     stats = {"inexpressible": 0, "disagree": 0, "violations": 0}
@@ -1534,9 +1660,9 @@ def run(ctx: Ctx):
             if not ctx.thorough and fixed_muts is None and len(muts) > 44:
                 typos = [m for m in muts if m.get("variant")]
                 rest = [m for m in muts if not m.get("variant")]
-                plus = [m for m in typos if str(m.get("variant")).startswith("plus") or m.get("variant") == "append"]
+                plus = [m for m in typos if str(m.get("variant")).startswith("plus") or m.get("variant") in ("append", "dunder", "meta")]
                 other = [m for m in typos if m not in plus]
-                plus = ctx.rng.sample(plus, min(len(plus), 8))
+                plus = ctx.rng.sample(plus, min(len(plus), 10))
                 typos = plus + ctx.rng.sample(other, min(len(other), 20 - len(plus)))
                 muts = typos + ctx.rng.sample(rest, min(len(rest), 44 - len(typos)))
             ctx.hist("mutations_per_case", min(len(muts) // 10 * 10, 100))
@@ -1547,6 +1673,8 @@ def run(ctx: Ctx):
             pending.append((case, process_case(ctx, case, muts, cfgs, mt, model, ctx.budget(2, 4), tmpdir, stats)))
             if not known_done or ctx.thorough:
                 check_known_args(ctx, case)
+                if not known_done:
+                    check_known_args_callbacks(ctx)
                 known_done = True
             if len(ctx.samples) < 3:
                 ctx.sample({"spec": case.ph(case.fields), "cfg": case.ph(case.cfg), "mutations": len(muts)})
@@ -1590,6 +1718,11 @@ def replay(ctx: Ctx, body):
             return 1
         print("parse_known_args accepted an external call")
         return 1
+    if r.get("kind") == "known_args_callback":
+        out, problems = known_args_callbacks()
+        for where, outcome in out + problems:
+            print("%-40s %s" % (where, outcome))
+        return 1 if problems or any(o != "refused" for _, o in out) else 0
     if r.get("kind") != "oracle":
         print("nothing to replay (broken tie without a failing input):", json.dumps(r, default=repr)[:1500])
         return 1
